@@ -159,7 +159,7 @@ CHECKS["C19"] = chain("TestC19", "property-based testing of recorded per-height 
 CHECKS["C17"] = {
     "test": "TestC17", "level": "exploration", "engine": "evm",
     "technique": "property-based differential testing against vanilla go-ethereum on a unified reference world, with generated contract programs",
-    "level_text": "Exploration with a differential oracle: contract programs are generated from a small IR (SSTORE, LOGn, CALL/STATICCALL/DELEGATECALL with value, gas caps and revert-if-failed/record-result, CREATE of child templates, SELFDESTRUCT, REVERT/RETURN/INVALID, conditionals on calldata, expressions over SLOAD, CALLVALUE, BALANCE, SELFBALANCE, CALLER, ORIGIN, COINBASE, ...) and assembled in the harness; call targets are passed in calldata (EOAs touched or not, other contracts, self, precompiles 1-4, fresh addresses). Histories mix deployments, calls with value, plain transfers to contract addresses, native transfers/staking/withdrawals on the same accounts and read-only vm_call queries at the latest and recent heights. Every admitted contract-path tx is executed on a vanilla go-ethereum StateDB holding the model's balances and nonces (this chain's rule: a failed tx leaves no trace); success/failure, return data, gas used and logs must agree per tx, and after every block the balances and nonces of all accounts, the code and storage slots of every touched contract and the native code markers must agree; vm_call must equal a reference call on a copy of the world and a quiet twin must commit the same hashes.",
+    "level_text": "Exploration with a differential oracle: contract programs are generated from a small IR (SSTORE, LOGn, CALL/STATICCALL/DELEGATECALL with value, gas caps and revert-if-failed/record-result, CREATE of child templates, SELFDESTRUCT, REVERT/RETURN/INVALID, conditionals on calldata, expressions over SLOAD, CALLVALUE, BALANCE, SELFBALANCE, CALLER, ORIGIN, COINBASE, NUMBER, TIMESTAMP, GASLIMIT, CHAINID, BASEFEE, DIFFICULTY, BLOCKHASH, GAS, GASPRICE, EXTCODESIZE, CODESIZE, CALLDATASIZE, RETURNDATASIZE; REVERT/RETURN with honest and broken ABI-shaped data) and assembled in the harness; call targets are passed in calldata (EOAs touched or not, other contracts, self, precompiles 1-4, fresh addresses). Histories mix deployments, calls with value, plain transfers to contract addresses, native transfers/staking/withdrawals on the same accounts and read-only vm_call queries at the latest and recent heights. Every admitted contract-path tx is executed on a vanilla go-ethereum StateDB holding the model's balances and nonces (this chain's rule: a failed tx leaves no trace); success/failure, return data, gas used and logs must agree per tx, and after every block the balances and nonces of all accounts, the code and storage slots of every touched contract and the native code markers must agree; vm_call must equal a reference call on a copy of the world and a quiet twin must commit the same hashes.",
     "level_note": "go-ethereum's interpreter (as linked by the repository) is the reference EVM: an interpreter bug shared by both sides is invisible. Precompile 1 is replaced by the repository for both sides alike. Findings F10a/F10b/F10c are repaired in the repository; their stored histories are re-executed on every run and must pass. Addresses of self-destructed contracts stay addressable; for a later plain transfer to one the check accepts the EVM or the native path (no property fixes it) and checks the charge of the path taken; the native code marker the application keeps for such addresses is not compared.",
     "quick": {"checks": 150, "timeout": 900},
     "thorough": {"checks": 400, "shards": 15, "timeout": 3000},
